@@ -160,6 +160,27 @@ func (lib *SpecLib) lemmaObligation(l *Lemma) (*Obligation, error) {
 			o.Assumes = append(o.Assumes, ms...)
 		}
 	}
+	for _, u := range l.Use {
+		if !u.IsL || len(u.List) < 1 {
+			return nil, fmt.Errorf("lemma %s: bad :use entry", l.Name)
+		}
+		other := lib.Lemmas[u.List[0].Atom]
+		if other == nil || other.Stmt.Op != "forall" {
+			return nil, fmt.Errorf("lemma %s: :use of unknown or unquantified lemma %s", l.Name, u.List[0].Atom)
+		}
+		if len(u.List)-1 != len(other.Stmt.Bound) {
+			return nil, fmt.Errorf("lemma %s: :use %s needs %d terms", l.Name, other.Name, len(other.Stmt.Bound))
+		}
+		m := map[*Term]*Term{}
+		for i, b := range other.Stmt.Bound {
+			t, err := lib.TermFromSX(u.List[i+1], sc)
+			if err != nil {
+				return nil, fmt.Errorf("lemma %s :use: %v", l.Name, err)
+			}
+			m[b] = t
+		}
+		o.Assumes = append(o.Assumes, Subst(other.Stmt.Args[0], m))
+	}
 	for _, u := range l.Unfold {
 		t, err := lib.TermFromSX(u, sc)
 		if err != nil {
